@@ -29,7 +29,7 @@ Section Oracles.
   Theorem C05_wrapped : forall c w rest inner,
     is_assignment w = false -> mem_str w WRAPPER_COMMANDS = true -> mcmd c (w :: rest) = None ->
     (str_eqb w $"command" && mem_str (nth 0 rest []) COMMAND_V_FLAGS) = false ->
-    skip_wrapper_args rest = inner -> inner <> [] ->
+    skip_wrapper_args w rest = inner -> inner <> [] ->
     ladder c (w :: rest) = ladder c inner.
   Proof. exact (wrapper_transparent mcmd handler mredir astr). Qed.
 End Oracles.
